@@ -3,7 +3,7 @@
 (* of the option lattice, and in memory (defines written as constants, same ROM type).  The      *)
 (* output file must stand in the FrontDefs relation to the in-memory writer image, the status    *)
 (* must be zero, and the symbol file must list the in-memory labels.                             *)
-EXTENDS FrontDefs, Json, IOUtils
+EXTENDS FrontDefs, Json, IOUtils, FiniteSets
 Trace == ndJsonDeserialize(IOEnv.TRACE_FILE)
 VARIABLE i
 Init == i = 0
@@ -16,7 +16,12 @@ Flat(calls) == Flatten([j \in 1..Len(calls) |-> FlatCall(calls[j])])
 SymClause(r) ==
     LET want == {<<r.mem.labels[j][1], (r.mem.labels[j][2] \div 65536) % 256, r.mem.labels[j][2] % 65536>> : j \in 1..Len(r.mem.labels)}
         got == {<<r.sym[j][1], r.sym[j][2], r.sym[j][3]>> : j \in 1..Len(r.sym)} IN
-    IF got # want THEN "symbol file entries differ from the labels: " \o ToString((want \ got) \cup (got \ want))
+    \* the label definitions the program makes (known from its construction), with multiplicity
+    IF \E n \in {r.names[j] : j \in 1..Len(r.names)} :
+           Cardinality({j \in 1..Len(r.sym) : r.sym[j][1] = n}) # Cardinality({j \in 1..Len(r.names) : r.names[j] = n})
+       \/ Len(r.sym) # Len(r.names)
+    THEN "symbol file does not list each label definition exactly once"
+    ELSE IF got # want THEN "symbol file entries differ from the labels: " \o ToString((want \ got) \cup (got \ want))
     ELSE IF Len(r.sym) # Len(r.mem.labels) THEN "a label is listed more than once"
     ELSE "ok"
 
